@@ -88,7 +88,8 @@ def fit_case(cid, kind, P, Hd, order, queries, s, tolerance=1e-12, xdtype=None):
                 dqv = float(m.score_samples(Xq, np.array([qy / s]))[0]) * s
                 # raw sign for queries: the specification only demands a sign where its exact offset is non-zero
                 c["queries"].append({"y": int(qy), "x": [int(v) for v in qx], "sgn": int(np.sign(dqv)),
-                                     "dq": int(round(dqv * 1024)), "dqb": int(round(float(batch[qi]) * 1024)) if np.isfinite(batch[qi]) else 2000000000})
+                                     "dq": int(round(dqv * 1024)), "dqb": int(round(float(batch[qi]) * 1024)) if np.isfinite(batch[qi]) else 2000000000,
+                                     "sgnb": int(np.sign(batch[qi])) if np.isfinite(batch[qi]) else 0})
     except Exception as e:  # noqa
         c["raised"] = True
         c["msg"] = "%s: %s" % (type(e).__name__, str(e)[:100])
